@@ -1113,33 +1113,57 @@ func runC02CallTable(c *Ctx) {
 			if !ts[w.reply] {
 				return
 			}
-			// the edges on which the method string is one of the reply's own: `Method == m` true edges, `Method != m`
-			// false edges (an early refusal); the reply must be reachable only through them
-			var edges []edgeRef
-			for _, b := range fn.Blocks {
-				iff, ok := b.Instrs[len(b.Instrs)-1].(*ssa.If)
-				if !ok {
-					continue
-				}
-				cmp, ok := iff.Cond.(*ssa.BinOp)
+			// The method string is touched only through comparisons with constants, so it is decided exactly: for every
+			// constant the function compares it with, and for "none of them", the blocks reachable when each such
+			// comparison has the outcome that string gives it.  The reply must be reachable only for its own methods.
+			universe := map[string]bool{"\x00none of the constants": true}
+			isMethodCmp := func(v ssa.Value) (string, bool, bool) {
+				cmp, ok := v.(*ssa.BinOp)
 				if !ok || (cmp.Op != token.EQL && cmp.Op != token.NEQ) {
-					continue
+					return "", false, false
 				}
-				str, ok := constString(cmp.Y)
+				x, y := cmp.X, cmp.Y
+				if _, isK := x.(*ssa.Const); isK {
+					x, y = y, x
+				}
+				str, ok := constString(y)
 				if !ok {
-					continue
+					return "", false, false
 				}
-				side := 0
-				if cmp.Op == token.NEQ {
-					side = 1
+				isMethod := false
+				for _, l := range leavesOf(x) {
+					if l.Kind == leafFieldLoad && l.Field == "Method" {
+						isMethod = true
+					}
 				}
-				for _, m := range w.methods {
-					if str == m {
-						edges = append(edges, edgeRef{b, side})
+				return str, cmp.Op == token.EQL, isMethod
+			}
+			for _, b := range fn.Blocks {
+				if iff, ok := b.Instrs[len(b.Instrs)-1].(*ssa.If); ok {
+					if str, _, isM := isMethodCmp(iff.Cond); isM {
+						universe[str] = true
 					}
 				}
 			}
-			guard := onlyViaEdges(fn, edges, func(x ssa.Instruction) bool { return x == in })
+			guard := true
+			for m := range universe {
+				m := m
+				seen := reachWithFlagsX(fn.Blocks[0], func(cond ssa.Value) (bool, bool) {
+					if str, eq, isM := isMethodCmp(cond); isM {
+						return (str == m) == eq, true
+					}
+					return false, false
+				})
+				own := false
+				for _, wm := range w.methods {
+					if wm == m {
+						own = true
+					}
+				}
+				if seen[in.Block()] && !own {
+					guard = false
+				}
+			}
 			c.check(guard, "R4", w.fn+" reply "+w.reply+" tied to its method", p.Pos(in.Pos()),
 				"this reply type is produced only under Method == "+strings.Join(w.methods, "|"), "a "+w.reply+" reply can be produced for a request whose method is not "+strings.Join(w.methods, "|"))
 		})
